@@ -173,10 +173,17 @@ class Env(gpp.UGenParameter, gpp.NodeParameter):
         self.__envgen_format = None
         self.__interpolation_format = None
 
+    def __setattr__(self, name, value):
+        # The server formats are cached: assigning to the specification
+        # (levels, times, curves, nodes, offset) makes them obsolete.
+        if not name.startswith('_'):
+            self.__envgen_format = None
+            self.__interpolation_format = None
+        super().__setattr__(name, value)
+
     # no newClear
     # no kr
     # no ar
-    # no setters
 
 
     ### Fixed duration common envelopes ###
